@@ -71,6 +71,7 @@ def suite_history(ctx, case):
     for k, op in enumerate(case['ops']):
         v = op['v']
         val = int(v) if op.get('int') else v
+        if op.get('npint'): val = getattr(np, op['npint'])(int(v))          # a fixed-width NumPy integer (a value read from an integer array)
         key = key_of(op['ts'], types, op['style'])
         sub = dict(case); sub['upto'] = k
         if op['kind'] == 'dens':
@@ -152,7 +153,10 @@ def gen_case(rng, max_ops):
         c = rng.random()
         if prev and c < 0.2: v = prev[-1] * (1 + rng.choice([1e-6, -1e-6, 4e-6, 1e-9, 1e-12])); isint = False
         elif c < 0.3: v = rng.choice([1e-9, 5e-9, 2e-10, 3e-8]) * rng.choice([1.0, 1.7]); isint = False
-        ops.append({'kind': kind, 'ts': ts, 'v': v, 'style': style, 'int': isint})
+        npint = None
+        if rng.random() < 0.06:
+            v = float(rng.choice([40, 1400, 2000, 3])); isint = True; npint = rng.choice(['int16', 'int32', 'int64']) if v < 100 else rng.choice(['int32', 'int64'])
+        ops.append({'kind': kind, 'ts': ts, 'v': v, 'style': style, 'int': isint, 'npint': npint})
     return {'n': n, 'ops': ops, 'others': rng.random() < 0.4, 'labels': rng.choice(['names', 'names', 'ints0', 'ints', 'mixed'])}
 
 def generate(ctx):
